@@ -77,6 +77,29 @@ static void test_products(int N, int reps) {
         }
 }
 
+// integer polynomials of every small weight w (sparse keys, monomial sums): a contiguous run of w non-zero coefficients at a
+// random offset, and w non-zero coefficients on a random support; every weight, so that any sparse/dense switch-over is crossed
+static void test_weights(int N, int maxw) {
+    TP b(N), r(N), r0(N); IP a(N);
+    std::vector<U> want, w2;
+    for (int w = 1; w <= maxw && w <= N; w++) for (int variant = 0; variant < 3; variant++) {
+        for (int i = 0; i < N; i++) a.c()[i] = 0;
+        if (variant == 0) { int off = (int) rng.below(N - w + 1); for (int i = 0; i < w; i++) a.c()[off + i] = rng.coin() ? 1 : (int32_t) rng.range(-3, 3) | 1; }
+        else if (variant == 1) { int off = (int) rng.below(N); for (int i = 0; i < w; i++) a.c()[(off + i) % N] = rng.i32() | 1; }    // run wrapping around the end
+        else { int placed = 0; while (placed < w) { int i = (int) rng.below(N); if (!a.c()[i]) { a.c()[i] = rng.coin() ? 1 : -1; placed++; } } }
+        fill(b.c(), N, w % 3 == 0 ? EXTREME : RANDOM);
+        ref_negacyclic(want, a.c(), b.c(), N);
+        char ex[48]; snprintf(ex, sizeof ex, "weight=%d variant=%d", w, variant);
+        VH_OP("torusPolynomialMultKaratsuba:weight:N=%d", N);
+        fill(r.c(), N, RANDOM); torusPolynomialMultKaratsuba(r.p, a.p, b.p); cmp("torusPolynomialMultKaratsuba", N, "weight-w", "-", r.c(), want, ex);
+        fill(r.c(), N, RANDOM); torusPolynomialMultNaive(r.p, a.p, b.p); cmp("torusPolynomialMultNaive", N, "weight-w", "-", r.c(), want, ex);
+        fill(r0.c(), N, RANDOM); w2.resize(N);
+        memcpy(r.c(), r0.c(), 4 * N); torusPolynomialAddMulRKaratsuba(r.p, a.p, b.p); for (int i = 0; i < N; i++) w2[i] = (U) r0.c()[i] + want[i]; cmp("torusPolynomialAddMulRKaratsuba", N, "weight-w", "-", r.c(), w2, ex);
+        memcpy(r.c(), r0.c(), 4 * N); torusPolynomialSubMulRKaratsuba(r.p, a.p, b.p); for (int i = 0; i < N; i++) w2[i] = (U) r0.c()[i] - want[i]; cmp("torusPolynomialSubMulRKaratsuba", N, "weight-w", "-", r.c(), w2, ex);
+    }
+    char cell[64]; snprintf(cell, sizeof cell, "weights:N=%d:1..%d", N, maxw < N ? maxw : N); out.cell(cell);
+}
+
 // every basis pair (X^i, c.X^j): bilinearity => full correctness of the product on the basis
 static void test_basis(int N) {
     TP b(N), r(N); IP a(N);
@@ -217,6 +240,7 @@ int main(int argc, char **argv) {
         items.push_back([=] { test_monomials(N, thorough || N <= 512); });
         items.push_back([=] { test_linear(N, thorough ? 40 : 8); });
         if (N <= basisN) items.push_back([=] { test_basis(N); });
+        if (N >= 8) items.push_back([=] { test_weights(N, thorough ? 300 : 100); });
     }
     for (size_t i = 0; i < items.size(); i++)
         if ((int) (i % nshards) == shard) items[i]();
